@@ -291,7 +291,7 @@ impl Prop for Files {
         300
     }
     fn cases(&self, tier: Tier) -> u64 {
-        tier.pick(60_000, 2_000_000)
+        tier.pick(300_000, 6_000_000)
     }
     fn generate(&self, g: &mut Gen) -> Case {
         gen_case(g)
